@@ -7,10 +7,11 @@ package simbox
 //@ props C09
 
 // A delay model draws from the process-wide math/rand/v2 source by design (a randomised simulation); the
-// simulation-frame contracts exclude it by precondition, this contract only records that it changes no VM state.
+// simulation-frame contracts exclude it by precondition, this contract states - and the body is checked for it - that sampling writes nothing: neither VM state nor the
+// delay model itself, which every processor and every simulation given the same model share.
 //@ func (d *DelayDistribution) GetValue() int32
+//@   requires d != nil
 //@   assigns nothing
-//@   trusted
 
 //@ props C15
 
